@@ -1,8 +1,18 @@
 --------------------------- MODULE RpcQueueTrace ---------------------------
 (* Trace specification for C15: call/return histories recorded from the real
-   rpcQueue (sequential replays, forced interleavings around the schedule
-   point, concurrent stress windows) are linearised against RpcQueueSeq.
-   A history is accepted iff the cursor can reach the end of the file. *)
+   rpcQueue (sequential replays, bursts of operations run back to back by one
+   goroutine, forced interleavings around the two schedule points, concurrent
+   stress windows) are linearised against RpcQueueSeq.
+   A history is accepted iff the cursor can reach the end of the file.
+   Every call takes effect (TLin) at some instant between its call and its ret
+   line; a quiet line lists the calls still outstanding when nothing can run
+   any more, and is accepted only if none of them has taken effect AND the
+   sequential queue, in the state reached, gives each of them nothing it could
+   do (PushBlocked / PopBlocked).  That is P_C15_Progress: a wake-up lost by
+   the code (a pusher left waiting although a burst of pops made room, a Pop
+   that misses a Close landing between its check and its wait) leaves a call
+   in the list which the sequential queue says must return.  The driver's
+   note lines (parked / release / nohook) are removed before validation. *)
 EXTENDS Naturals, Sequences, FiniteSets, TLC, Json
 
 Trace == ndJsonDeserialize("trace.ndjson")
